@@ -49,7 +49,7 @@ fn check_setup(server: bool, cfg: EndConfig, ctx: &mut Ctx) -> Verdict {
     ctx.eval();
     fastrand::seed(3);
     let case = || json!({"kind": "setup", "role": if server { "server" } else { "client" }, "config": format!("{cfg:?}"),
-        "cfg": [cfg.grease, cfg.webtransport, cfg.extended_connect, cfg.datagram], "mfs": cfg.max_field_section_size.map(|v| v.to_string()), "wts": cfg.max_wt_sessions.map(|v| v.to_string())});
+        "cfg": [cfg.grease, cfg.webtransport, cfg.extended_connect, cfg.datagram], "mfs": cfg.max_field_section_size.map(|v| v.to_string()), "wts": cfg.max_wt_sessions.map(|v| v.to_string()), "setter_order": cfg.setter_order});
     let net = Net::new();
     let side = if server { Side::Server } else { Side::Client };
     net.set_raw(side.other());
@@ -370,7 +370,7 @@ fn exhaustive(ctx: &mut Ctx, shard: usize, nshards: usize) -> Verdict {
                 if !mine() {
                     continue;
                 }
-                let cfg = EndConfig { grease: bits & 1 != 0, webtransport: bits & 2 != 0, extended_connect: bits & 4 != 0, datagram: bits & 8 != 0, max_field_section_size: Some(mfs), max_wt_sessions: Some(wts) };
+                let cfg = EndConfig { grease: bits & 1 != 0, webtransport: bits & 2 != 0, extended_connect: bits & 4 != 0, datagram: bits & 8 != 0, max_field_section_size: Some(mfs), max_wt_sessions: Some(wts), setter_order: 0 };
                 check_setup(true, cfg, ctx)?;
             }
         }
@@ -380,8 +380,22 @@ fn exhaustive(ctx: &mut Ctx, shard: usize, nshards: usize) -> Verdict {
             if !mine() {
                 continue;
             }
-            let cfg = EndConfig { grease: bits & 1 != 0, webtransport: false, extended_connect: bits & 2 != 0, datagram: bits & 4 != 0, max_field_section_size: Some(mfs), max_wt_sessions: None };
+            let cfg = EndConfig { grease: bits & 1 != 0, webtransport: false, extended_connect: bits & 2 != 0, datagram: bits & 4 != 0, max_field_section_size: Some(mfs), max_wt_sessions: None, setter_order: 0 };
             check_setup(false, cfg, ctx)?;
+        }
+    }
+    // the order in which the setters are called (and an earlier call with the opposite value) must not matter
+    for bits in 0..16u32 {
+        for order in 1..8u8 {
+            if !mine() {
+                continue;
+            }
+            let cfg = EndConfig { grease: bits & 1 != 0, webtransport: bits & 2 != 0, extended_connect: bits & 4 != 0, datagram: bits & 8 != 0, max_field_section_size: Some(1000), max_wt_sessions: Some(3), setter_order: order };
+            check_setup(true, cfg, ctx)?;
+            if bits & 2 == 0 {
+                check_setup(false, EndConfig { max_wt_sessions: None, ..cfg }, ctx)?;
+            }
+            ctx.class("setter_order_varied");
         }
     }
     if mine() {
@@ -448,7 +462,7 @@ fn run_tape(tape: &[u16], ctx: &mut Ctx) -> Verdict {
     if t.chance(1, 12) {
         let server = t.bool();
         let pick = |t: &mut Tape| if t.bool() { Some(if t.chance(1, 2) { *t.choose(&VALS) } else { t.u64() >> t.pick(64) }) } else { None };
-        let cfg = EndConfig { grease: t.bool(), webtransport: server && t.bool(), extended_connect: t.bool(), datagram: t.bool(), max_field_section_size: pick(&mut t), max_wt_sessions: if server { pick(&mut t) } else { None } };
+        let cfg = EndConfig { grease: t.bool(), webtransport: server && t.bool(), extended_connect: t.bool(), datagram: t.bool(), max_field_section_size: pick(&mut t), max_wt_sessions: if server { pick(&mut t) } else { None }, setter_order: t.pick(8) as u8 };
         return check_setup(server, cfg, ctx);
     }
     let server = t.bool();
@@ -498,7 +512,7 @@ fn run_direct(d: &Value, ctx: &mut Ctx) -> Verdict {
         Some("setup") => {
             let c = d["cfg"].as_array().map(|a| a.iter().map(|x| x.as_bool().unwrap_or(false)).collect::<Vec<_>>()).unwrap_or_default();
             let num = |k: &str| d[k].as_str().and_then(|s| s.parse::<u64>().ok());
-            let cfg = EndConfig { grease: c.first().copied().unwrap_or(false), webtransport: c.get(1).copied().unwrap_or(false), extended_connect: c.get(2).copied().unwrap_or(false), datagram: c.get(3).copied().unwrap_or(false), max_field_section_size: num("mfs"), max_wt_sessions: num("wts") };
+            let cfg = EndConfig { grease: c.first().copied().unwrap_or(false), webtransport: c.get(1).copied().unwrap_or(false), extended_connect: c.get(2).copied().unwrap_or(false), datagram: c.get(3).copied().unwrap_or(false), max_field_section_size: num("mfs"), max_wt_sessions: num("wts"), setter_order: d["setter_order"].as_u64().unwrap_or(0) as u8 };
             check_setup(server, cfg, ctx)
         }
         Some("payload") => {
